@@ -131,6 +131,7 @@ func cmdCheck(args []string) {
 	}
 	sort.Strings(fns)
 	sort.Strings(assumedFns)
+	support := supportProps(*verif, *prop)
 	var obls []*vc.Obligation
 	results := map[string]*vc.FuncResult{}
 	type viol struct {
@@ -163,7 +164,7 @@ func cmdCheck(args []string) {
 		}
 		assumes = append(assumes, r.Assumes...)
 		for _, o := range r.Ctx.Obls {
-			if hasProp(o.Props, *prop) {
+			if hasProp(o.Props, *prop) || hasAnyProp(o.Props, support) {
 				obls = append(obls, o)
 			}
 		}
@@ -203,7 +204,8 @@ func cmdCheck(args []string) {
 			}
 			calleeFns = append(calleeFns, c)
 			for _, o := range r.Ctx.Obls {
-				if safetyClass[o.Class] {
+				// a helper whose contract carries no tag at all serves whoever calls it: all its obligations are taken
+				if safetyClass[o.Class] || hasAnyProp(o.Props, support) || len(o.Props) == 0 {
 					obls = append(obls, o)
 				}
 			}
@@ -417,7 +419,7 @@ func cmdCheck(args []string) {
 	if b, err := os.ReadFile(filepath.Join(*verif, "levels.json")); err == nil {
 		var lv map[string]struct{ Level, Explanation string }
 		if json.Unmarshal(b, &lv) == nil {
-			if e, ok := lv[*prop]; ok {
+			if e, ok := lv[*prop]; ok && e.Level != "" {
 				level, explanation = e.Level, e.Explanation
 			}
 		}
@@ -433,7 +435,7 @@ func cmdCheck(args []string) {
 			"checker_cmd":  fmt.Sprintf("bin/lzvc check -prop %s -tier %s (VCs generated from %s, discharged by z3-new/z3/cvc5, %s per solver)", *prop, *tier, *repo, timeout),
 			"trusted_base": trusted, "functions_under_contract": fns, "callees_checked_for_runtime_panics": calleeFns, "obligations_by_class": byClass,
 			"discharged_by_solver": bySolver, "solver_seconds": round3(solverSecs), "vcgen_seconds": round3(genSecs),
-			"loops_without_variant": dedupStrs(noTerm), "explicit_assumes": assumes, "expected_clause_obligations": len(expected),
+			"support_properties_rechecked_in_cone": support, "loops_without_variant": dedupStrs(noTerm), "explicit_assumes": assumes, "expected_clause_obligations": len(expected),
 			"known_findings_hit": knownHit, "samples": samples,
 			"evaluations": len(obls), "distinct_nontrivial": discharged,
 			"rule":        "one SMT query per generated obligation; an obligation is non-trivial when its goal is not syntactically true (all generated obligations are)",
@@ -463,6 +465,33 @@ func cmdCheck(args []string) {
 	if nviol > 0 {
 		os.Exit(1)
 	}
+}
+
+// supportProps: the properties whose clauses this property's proof rests on (levels.json, "Support"). The functional
+// clauses of a property are proved relative to the object invariants, range invariants and buffer semantics of the
+// functions in its cone; those clauses carry the tag of the property that states them (C16: no panic / invariants,
+// C15: buffer semantics). A check therefore also discharges every clause with a support tag in every function of its
+// cone (its own functions and everything they call), so that a change breaking such a clause is reported by every
+// property whose argument it invalidates, not only by the property the clause is named after.
+func supportProps(verif, prop string) []string {
+	b, err := os.ReadFile(filepath.Join(verif, "levels.json"))
+	if err != nil {
+		return nil
+	}
+	var lv map[string]struct{ Support []string }
+	if json.Unmarshal(b, &lv) != nil {
+		return nil
+	}
+	return lv[prop].Support
+}
+
+func hasAnyProp(props, any []string) bool {
+	for _, a := range any {
+		if hasProp(props, a) {
+			return true
+		}
+	}
+	return false
 }
 
 // requireVariants: properties that claim termination treat a loop without a variant as a violation.
